@@ -26,6 +26,7 @@ EXPLANATION = (
     "positions, with the required term set per type; R05.5 every named position of get_geometry_point evaluates to the "
     "specified corner / midpoint / centre, returned as (time, frequency). shapely's bounds / centroid / "
     "point_on_surface are trusted."
+    'R05.1 / R05.4 evaluate the dispatcher once per geometry type (table rows of any shape, per-type code named or inlined) and inspect the feature list that results. '
 )
 ASSUMPTIONS = ["shapely's .bounds is (minx, miny, maxx, maxy); box(minx, miny, maxx, maxy); Polygon(shell, holes) (trusted)"]
 
